@@ -57,8 +57,9 @@ class UnitSpec:
     """One lowered unit: which functions of which TUs, which models, spec header, harness file."""
 
     def __init__(self, name, tus, functions, string_model="vstr", models=("exact.h",), spec_header=None,
-                 harness_file=None, prelude="", rec_stubs=()):
+                 harness_file=None, prelude="", rec_stubs=(), must_fire=True):
         self.rec_stubs = set(rec_stubs)
+        self.must_fire = must_fire        # every contract macro of the spec header must meet a lowered function
         self.name = name
         self.tus = tus
         self.functions = functions      # list of (tu, signature)
@@ -123,7 +124,7 @@ def lower_unit(spec, prop):
     with open(os.path.join(b.dir, "lowered.c"), "w") as f:
         f.write(text)
     # loop-contract macros the spec defines must correspond to loops that exist
-    if spec.spec_header:
+    if spec.spec_header and getattr(spec, "must_fire", True):
         sh = open(os.path.join(VERIF, spec.spec_header)).read()
         for m in re.findall(r"#define\s+(__LC_[A-Za-z0-9_]+)", sh):
             if m not in macros:
@@ -291,7 +292,13 @@ def run_harness(built, h, canary=False):
     base += h.extra_cbmc
     cmd = base + ["--verbosity", "6"]
     if canary:
-        cmd += ["--stop-on-fail"]      # one model is enough: is the assert(0) behind the call reachable?
+        # only the canary assertion matters: is the assert(0) behind the call under contract reachable?
+        rc0, out0, err0, _ = run(["cbmc", gb, "--show-properties"], timeout=120)
+        m0 = re.search(r"^Property (%s\.\S+):\n(?:.*\n){0,3}?.*CANARY reachable" % re.escape(h.name), out0, re.M)
+        if m0:
+            cmd += ["--property", m0.group(1)]
+        else:
+            cmd += ["--stop-on-fail"]
     r.cmds.append(" ".join(cmd))
     rc, out, err, secs = run(cmd, timeout=h.timeout, mem_gb=h.mem_gb)
     r.solver_secs = secs
